@@ -193,6 +193,18 @@ func genC18(g *Gen) error {
 		}
 		g.P("def src_%s : String := %s", f[2], leanStr(g.Src(fd.Body)))
 	}
+	// the condition of the duration-to-zero clamp of rate / increase (store side and subquery side),
+	// as a list of conjuncts: compared with the reference's condition (counter, increase > 0, first >= 0)
+	for _, f := range [][3]string{
+		{en + "prom_functions.go", "floatPromRateMerge", "engine"},
+		{en + "executor/agg_func_prom.go", "rate", "executor"},
+	} {
+		conj, err := clampCondition(g, f[0], f[1])
+		if err != nil {
+			return err
+		}
+		g.StrList("clampCond_"+f[2], conj)
+	}
 	fp, err := g.Fingerprint(en+"prom_instant_vector_cursor.go", "floatSampler.Aggregate")
 	if err != nil {
 		return err
@@ -220,4 +232,40 @@ func genC18(g *Gen) error {
 	}
 	g.Footer()
 	return nil
+}
+
+// clampCondition: the conjuncts of the `if` whose body computes durationToZero.
+func clampCondition(g *Gen, rel, name string) ([]string, error) {
+	fd, err := g.Func(rel, name)
+	if err != nil {
+		return nil, err
+	}
+	var cond ast.Expr
+	ast.Inspect(fd.Body, func(n ast.Node) bool {
+		is, ok := n.(*ast.IfStmt)
+		if !ok || cond != nil {
+			return true
+		}
+		for _, st := range is.Body.List {
+			if as, ok := st.(*ast.AssignStmt); ok && len(as.Lhs) == 1 && g.Src(as.Lhs[0]) == "durationToZero" {
+				cond = is.Cond
+			}
+		}
+		return true
+	})
+	if cond == nil {
+		return nil, fmt.Errorf("%s: %s: no duration-to-zero clamp found", rel, name)
+	}
+	var out []string
+	var split func(e ast.Expr)
+	split = func(e ast.Expr) {
+		if b, ok := e.(*ast.BinaryExpr); ok && b.Op == token.LAND {
+			split(b.X)
+			split(b.Y)
+			return
+		}
+		out = append(out, g.Src(e))
+	}
+	split(cond)
+	return out, nil
 }
